@@ -87,6 +87,8 @@ class Cfg:
                 ops.append(("w", 4, a, 0))
                 ops.append(("u", 4, a, 0))
         if alphabet == "control":
+            for a in self.words:
+                ops.append(("has", 4, a, 0))   # Cache.contains(): a presence query is not an access
             ops.append(("stats", 4, base, 0))  # the statistics are asked for (an observer as an operation)
             ops.append(("view", 4, base, 0))   # the cache table is looked at
         if alphabet in ("word", "control", "wordz"):
@@ -192,6 +194,22 @@ class World:
             if checks is not None and got != (self.ref.accesses, self.ref.hits):
                 checks.append(("accesses" if not isinstance(got, tuple) or got[0] != self.ref.accesses else "hits",
                                f"get_cache_stats() (operation of the history) answers (accesses, hits) = {got}, reference {(self.ref.accesses, self.ref.hits)}"))
+            return "ok"
+        if kind == "has":
+            try:
+                from architecture_simulator.uarch.memory.decoded_address import DecodedAddress
+                got = bool(mem.cache.contains(DecodedAddress(self.cfg.ib, self.cfg.bb, self.cfg.spell(a))))
+            except (AttributeError, TypeError, ImportError):
+                return "ok"  # no such query in this tree: nothing to observe
+            except Exception as e:  # noqa
+                if checks is not None:
+                    checks.append(("unexpected-error", f"Cache.contains() raised {type(e).__name__}: {e}"))
+                return "ok"
+            if checks is not None and self.ref_valid:
+                blk = a >> (2 + self.cfg.bb)
+                want = (blk & ((1 << self.cfg.ib) - 1), blk >> self.cfg.ib) in self.ref.resident()
+                if got != want:
+                    checks.append(("resident-set", f"Cache.contains({a:#x}) answers {got}, the reference cache {'holds' if want else 'does not hold'} that block"))
             return "ok"
         if kind == "view":
             try:
@@ -431,6 +449,8 @@ def opname(op):
         return "get_cache_stats()"
     if kind == "view":
         return "get_data_cache_entries()"
+    if kind == "has":
+        return f"cache.contains({op[2]:#x})"
     alias = op[4] if len(op) > 4 else 0
     w = {1: "byte", 2: "halfword", 4: "word"}[width]
     at = f"{a:#x}" + ("" if not alias else (" - 2^32" if alias < 0 else " + 2^32"))
